@@ -87,20 +87,45 @@ class C15(MergeFamProp):
     NMAX = 4
     RULE = ('merge sequences of 1-4 documents over priority / !del / !merge / metadata tags; each is built twice, with the last '
             'document repeated (when it has no explicit !del), with an empty mapping inserted at a random position, with the keys '
-            'of every mapping permuted, and with !unsafe / !new placed on a random node; non-trivial = >= 2 stages; distinct by SHA-1')
+            'of every mapping permuted, and with !unsafe / !new placed on a random node; every related run is also compared with the model; '
+            'a targeted family rewrites the same keys with values of changing kind (scalar / list / mapping, empty or falsy ones '
+            'included, untagged or with a priority tag); non-trivial = >= 2 stages; distinct by SHA-1')
     ASSUMPTIONS = ['the explicit remove-this-key idiom (and any explicit !del in the repeated document) is excluded from the repeat relation, as the property says',
-                   'repeat-last failures on sequences combining lists with priority tags are attributed to known finding D18']
+                   'repeat-last failures on sequences combining lists with priority tags are attributed to known finding D18 — only when the model, '
+                   'which reproduces the unchanged code, agrees with the implementation on the base run and on every related run']
 
     def corpus(self):
         D = lambda *raws, **kw: dict({'docs': [{'raw': r} for r in raws], 'style': ['flow', 0, 0], 'vseed': 1}, **kw)
         return [
             D(M({'a': M({'l': Q([M({'p': S(0)}, kw={'prio': 1})])})}), M({'a': M({'l': Q([M({'s': S(5)})])})})),      # D13 witness (mark root !unsafe)
             D(M({'a': Q([S(1), S(2)])}), M({'a': Q([S(1, kw={'prio': 1}), S(2)])}), M({'a': Q([S(8), S(9)])})),
+            D(M({'a': Q([S(1), S(2, kw={'prio': 1})])}), M({'a': Q([S(8, kw={'prio': 1}), S(9)])})),      # D18 (repeat)
+            D(M({'a': Q([S('x'), S('y')])}), M({'a': M([(0, M({'p': S(1)})), (-2, Q([S(5)]))])})),      # D28 (repeat raises)
             D(M({'a': M({'b': M({'c': M({'l': Q([S(1), S(2), S(3)])})})})}), M({'a': M({'b': M({'c': M({'l': Q([S(9)])})})}, kw={'del': False})}), vseed=7),
         ]
 
     def gen_cases(self, rng, n, tier):
         out = super().gen_cases(rng, n, tier)
+        # targeted family: later documents change the KIND of what an earlier one wrote at the same key (scalar, list, mapping,
+        # each possibly empty or falsy), untagged or with a priority tag - never an explicit !del (that is the excluded idiom)
+        def shape():
+            r = rng.random()
+            kw = rng.choice([{}, {}, {}, {'prio': 1}, {'prio': -1}])
+            if r < 0.30: return S(rng.choice([0, 1, 'v', '', False, 2.5]), kw=kw)
+            if r < 0.50: return Q([], kw=kw)
+            if r < 0.65: return Q([S(rng.randrange(5)) for _ in range(rng.choice([1, 2]))], kw=kw)
+            if r < 0.80: return M([], kw=kw)
+            return M([(rng.choice(['p', 'q']), S(rng.randrange(5)))], kw=kw)
+        for i in range(max(4, n // 10)):
+            keys = rng.sample(['a', 'b', 'c', 'k'], rng.choice([1, 2, 3]))
+            docs = [{'raw': M([(k, shape()) for k in keys])}]
+            for _ in range(rng.choice([1, 1, 2, 3])):
+                ks = [k for k in keys if rng.random() < 0.7] or keys[:1]
+                inner = M([(k, shape()) for k in ks])
+                docs.append({'raw': inner})
+            if rng.random() < 0.4:      # the same one level down
+                docs = [{'raw': M([('w', d['raw'])])} for d in docs]
+            out[(len(out) - 1 - i) % len(out)] = {'docs': docs[:self.NMAX], 'style': ['flow', 0, 0]}
         for c in out:
             c['vseed'] = rng.randrange(1 << 30)
         return out
@@ -143,6 +168,33 @@ class C15(MergeFamProp):
             except Exception as e:
                 io['var'][name] = {'err': 'render:' + str(e)[:80]}
         return io
+
+    # every related run also goes through the model: a change of the implementation that shows only in a related run
+    # (e.g. only when the last document is repeated) breaks the correspondence, and a failure of a law is attributed to
+    # a recorded finding only when the faithful model fails the same way (framework: no attribution on a disagreement)
+    def model_requests(self, case):
+        reqs = super().model_requests(case)
+        for name, docs in self.variants(case).items():
+            reqs.append({'op': 'config', 'docs': docs, 'world': self.WORLD})
+        return reqs
+
+    def model_obs(self, case, answers):
+        mo = super().model_obs(case, answers)
+        mo['var'] = dict(zip(self.variants(case).keys(), answers[2:]))
+        return mo
+
+    def compare(self, case, io, mo):
+        d = super().compare(case, io, mo)
+        if d is not None:
+            return d
+        for name, r in io['var'].items():
+            if str(r.get('err', '')).startswith('render:') or name not in mo['var']:
+                continue
+            d = compare_config(r, mo['var'][name])
+            if d in ('SKIP', None) or d.startswith('KNOWN:'):
+                continue
+            return f'related run {name!r}: evaluated config: ' + d
+        return None
 
     def oracle(self, case, io, ans):
         base = io['cfg']
